@@ -244,10 +244,11 @@ class ClassicalDataDictionaryStore(ClassicalDataStore):
         )
 
     def copy(self):
+        # The lists of records are copied too: recording on the copy must not grow the original's.
         return ClassicalDataDictionaryStore(
-            _records=self._records.copy(),
-            _measured_qubits=self._measured_qubits.copy(),
-            _channel_records=self._channel_records.copy(),
+            _records={k: list(v) for k, v in self._records.items()},
+            _measured_qubits={k: list(v) for k, v in self._measured_qubits.items()},
+            _channel_records={k: list(v) for k, v in self._channel_records.items()},
             _measurement_types=self._measurement_types.copy(),
         )
 
